@@ -16,7 +16,7 @@ fn main() {
         let mut ex: Box<dyn Executor> = match stream {
             "time" => Box::new(streams::time::TimeExec),
             "wire" => Box::new(streams::wire::WireExec),
-            "inst" | "bmca" | "port" | "fml" => Box::new(streams::inst::InstExec::new()),
+            "inst" | "bmca" | "port" | "fml" | "c07" => Box::new(streams::inst::InstExec::new()),
             "cmp" => Box::new(streams::gen_bmca::CmpExec),
             _ => panic!("unknown stream"),
         };
@@ -60,6 +60,7 @@ fn main() {
         "inst" => streams::gen_inst::generate(&mut out, &rng, thorough),
         "cmp" => streams::gen_bmca::generate_cmp(&mut out, &rng, thorough),
         "fml" => streams::gen_fml::generate(&mut out, &rng, thorough),
+        "c07" => streams::gen_c07::generate(&mut out, &rng, thorough, &dir),
         "bmca" => streams::gen_bmca::generate_bmca(&mut out, &rng, thorough),
         _ => panic!("unknown stream {stream}"),
     }
